@@ -42,12 +42,14 @@ var imports = map[string][]importSpec{
 		{"C15", `^C15\.string$`, ``, "a name field that overflows its 30 octets overwrites the neighbouring field of the encoding"},
 	},
 	"C03": {
+		{"C09", `^C09\.H7$`, `dials|starts the worker`, "the UDP exchange runs over a datagram socket and the TCP mode over a stream exactly as configured, on a connected tunnel"},
 		{"C02", `^C02\.layout$`, `knxnet\.TunnelRes|knxnet\.TunnelReq`, "the acknowledgement a sender waits for is decoded from the frame the gateway sent, the request is encoded as the gateway expects"},
 		{"C16", `^C16\.T3$`, `TunnelSocket`, "every (re)transmission leaves the socket as the bytes of that request: a send buffer shared between the tunnel's goroutines is torn by a concurrent acknowledgement or heartbeat"},
 		{"C09", `^C09\.H7$`, `new epoch|success only`, "sequence numbers start at 0 after every (re)connect: the connect function resets the counter on every successful path"},
 		{"C10", `^C10\.K5$`, `Lock Tunnel\.seqMu`, "Send returns no later than the response timeout: the sender lock is released on every path, otherwise the next Send never gets it"},
 	},
 	"C04": {
+		{"C09", `^C09\.H7$`, `dials|starts the worker`, "the receiver runs on the transport the configuration names, on a connected tunnel"},
 		{"C02", `^C02\.layout$`, `knxnet\.TunnelRes|knxnet\.TunnelReq`, "a request is recognised as such and its acknowledgement encoded as the gateway expects"},
 		{"C02", `^C02\.(layout|dispatch)$`, `^knxnet\.UnpackHeader|^knxnet\.Unpack `, "every frame is received through the header decoder and the service dispatcher"},
 		{"C01", `^C01\.c$`, kTunnelPath, "a telegram handed to Inbound must not change afterwards: the UDP receiver reuses one buffer for every datagram"},
